@@ -10,13 +10,17 @@ Node shapes (o = identifier-occurrence id, d = binder id; both unique per progra
   ('try', [stmts], d, x, o, 'Error', [stmts])
   ('class', d, c, oSup, 'Object', oName, dSuper, [methods]) ('method', kind, m, d0, params, [stmts])
 
+The iterable of a `for` is outside the scope of its item: it may mention an outer variable of the item's name and may
+contain function literals that do (the shape of the repaired finding D31 — judged by the Spec like everything else).
+
 Known-defect signatures the generator stays away from (DESIGN §6 + this property's findings):
   D1  try/catch only in functions without parameters (or at module level)
   D2  no break/continue
-  D31 the iterable of a `for` never contains a function literal (and never mentions the item)
   D32 no closure inside `init` mentions `self`
   D33 no declaration directly inside a `try` block that is left by `raise`
 """
+
+import re
 
 INT, F0, F1, MK, LF, LI, OBJ = "int", "f0", "f1", "mk", "lf", "li", "obj"
 
@@ -352,10 +356,27 @@ class Gen:
             self.pop()
             return [("for", dIter, d, g, it, body)]
         self.features.add("for")
-        x = self.fresh_name(INT_NAMES + ["x", "y"])
-        self.hidden.add(x)
-        items = [self.e_int_nolam() for _ in range(self.rng.randrange(1, 4))]
-        self.hidden.discard(x)
+        # the item may take the name of a visible integer variable (any scope: the loop opens its own); the iterable is
+        # evaluated outside the item's scope, so there that name still means the outer variable
+        outer = [v for v in self.visible(INT) if not re.fullmatch(r"i\d+", v.name)]
+        shadowed = self.rng.choice(outer) if outer and self.rng.random() < 0.45 else None
+        x = shadowed.name if shadowed else self.fresh_name(INT_NAMES + ["x", "y"])
+        items = []
+        for _ in range(self.rng.randrange(1, 4)):
+            k = self.rng.random()
+            if shadowed and k < 0.35:
+                self.features.add("for-iterable-reads-outer-var-named-like-item")
+                items.append(self.var(shadowed))
+            elif k < 0.6 and self.fdepth() < self.max_depth and self.spend(2):
+                # a function literal in the iterable, called at once; it may capture the outer variable of the item's name
+                if shadowed and self.rng.random() < 0.7:
+                    self.features.add("for-iterable-closure-captures-outer-var-named-like-item")
+                    items.append(("op", "call", [self.lam_ret_var(shadowed)]))
+                else:
+                    self.features.add("for-iterable-closure")
+                    items.append(("op", "call", [self.lam(F0)]))
+            else:
+                items.append(self.e_int_nolam())
         out = []
         lst = None
         if self.rng.random() < 0.6 and self.fdepth() < self.max_depth:
@@ -375,6 +396,18 @@ class Gen:
         self.pop()
         out.append(("for", dIter, d, x, ("op", "list", items), body))
         return out
+
+    def lam_ret_var(self, v):
+        """`|| { <stmts> return v; }` — a closure whose body reads (and so captures) the variable `v`"""
+        d0 = self.fd()
+        self.funs.append(FunCtx(0, "lam"))
+        self.push()
+        body = self.stmts(self.rng.randrange(0, 2))
+        vis = [w for w in self.visible(INT) if w.name == v.name]
+        body.append(("op", "ret", [self.var(vis[0]) if vis else self.e_int()]))
+        self.pop()
+        self.funs.pop()
+        return ("lam", d0, [], body)
 
     def e_int_nolam(self):
         ints = self.visible(INT)
